@@ -424,4 +424,18 @@ theorem nonstrict_counts_all (cfg : Cfg) (hsp : cfg.strictPeer = false) (tys : L
   have := (gen tys init rfl hok).1
   simpa [init] using this
 
+/-! ## non-vacuity of the sequence-number and transparency theorems -/
+
+-- strict: first exchange, application data, a re-key: the counter is 0 after each NEWKEYS and counts in between
+example : (run ⟨true, [31]⟩ init [20, 31, 21]).seq = 0 ∧ (run ⟨true, [31]⟩ init [20, 31, 21, 7, 94]).seq = 2 ∧
+    (run ⟨true, [31]⟩ init [20, 31, 21, 7, 94, 20, 31, 21]).seq = 0 ∧
+    (run ⟨true, [31]⟩ init [20, 31, 21, 7, 94, 20, 31, 21]).phase = .done := by decide
+-- the wrap-around: the counter before KEXINIT is what matters, 2^32 − 1 + 1 = 0
+example : (step ⟨true, [31]⟩ ⟨.first, 0xFFFFFFFF, false, false⟩ 2).seq = 0 := by decide
+-- non-strict: IGNORE / DEBUG anywhere, same outcome as without them, every packet counted, no reset
+example : (run ⟨false, [34, 32]⟩ init [4, 20, 2, 34, 32, 2, 2, 21]).phase = (run ⟨false, [34, 32]⟩ init [20, 34, 32, 21]).phase ∧
+    (run ⟨false, [34, 32]⟩ init [4, 20, 2, 34, 32, 2, 2, 21]).phase = .done ∧
+    (run ⟨false, [34, 32]⟩ init [4, 20, 2, 34, 32, 2, 2, 21]).seq = 8 := by decide
+example : wstep true 41 21 = 0 ∧ wstep false 41 21 = 42 ∧ wstep true 41 94 = 42 := by decide
+
 end XC.C30
